@@ -80,6 +80,7 @@ class FakeSock:
         self._n = n
         self.host = host
         self.role = role  # 'listen' | 'respond' | 'both'
+        self.dual = False
 
     def fileno(self) -> int:
         return self._n
@@ -175,7 +176,7 @@ class Host:
 
     def make_sockets(self):
         base = 100 + self.index * 10
-        fam0 = socket.AF_INET if self.sock_spec[0][0] == 'v4' else socket.AF_INET6
+        kinds = {k for k, _ in self.sock_spec}
 
         def mk(kind: str, ip: str, n: int, role: str) -> FakeSock:
             if kind == 'v4':
@@ -185,9 +186,12 @@ class Host:
         if self.single and len(self.sock_spec) == 1:
             s = mk(self.sock_spec[0][0], self.sock_spec[0][1], base, 'both')
             return s, [s]
-        any_ip = '0.0.0.0' if fam0 == socket.AF_INET else '::'
-        listen = mk(self.sock_spec[0][0], any_ip, base, 'listen')
-        # a v6 listen socket is dual-stack when the host also has v4 addresses
+        # separate listen socket; with both families present it is a dual-stack v6 socket (as the library creates)
+        if kinds == {'v4'}:
+            listen = mk('v4', '0.0.0.0', base, 'listen')
+        else:
+            listen = mk('v6', '::', base, 'listen')
+            listen.dual = 'v4' in kinds
         responders = [mk(k, ip, base + 1 + i, 'respond') for i, (k, ip) in enumerate(self.sock_spec)]
         return listen, responders
 
@@ -250,12 +254,14 @@ class Net:
             for h in self.hosts:
                 for ep in h.listen_endpoints():
                     epfam = 'v6' if ep.sock.family == socket.AF_INET6 else 'v4'
-                    if epfam != fam:
+                    if epfam != fam and not (fam == 'v4' and getattr(ep.sock, 'dual', False)):
                         continue
                     for delay in self.delivery.plan(entry['seq'], h.index):
                         self._deliver_later(delay, ep, data, self._src_tuple(tr, src_ip, ep), entry['seq'])
             return
         # unicast
+        if dst.startswith('::ffff:'):
+            dst = dst[7:]
         for h in self.hosts:
             ep = h.endpoint_for_ip(dst)
             if ep is not None:
@@ -268,6 +274,8 @@ class Net:
     @staticmethod
     def _src_tuple(tr: FakeTransport, src_ip: str, ep: FakeTransport) -> Tuple:
         if ep.sock.family == socket.AF_INET6:
+            if ':' not in src_ip:
+                src_ip = '::ffff:' + src_ip
             return (src_ip, 5353, 0, ep.sock.getsockname()[3])
         return (src_ip, 5353)
 
